@@ -242,8 +242,8 @@ from harness.common import mk_event
 def _pipeline(P, interrupt):
     done = []
     sink = Sink("sink", done)
-    back = Server("back", concurrency=1, service_time=ConstantLatency(3e-9), queue_capacity=4, downstream=sink)
-    front = Server("front", concurrency=2, service_time=ConstantLatency(1e-9), queue_capacity=4, downstream=back)
+    back = Server("back", concurrency=1, service_time=ConstantLatency(8e-9), queue_capacity=4, downstream=sink)
+    front = Server("front", concurrency=P.get("front_concurrency", 2), service_time=ConstantLatency(1e-9), queue_capacity=4, downstream=back)
     fwd = Forwarder("fwd", front)
     sim = Simulation(entities=[front, back, fwd, sink])
     c = sim.control
@@ -267,9 +267,10 @@ def pipeline_stepping(sym, tier):
     pause / step(k1) / step(k2) / resume ends exactly like the uninterrupted run."""
     r = Result()
     m = 3
-    P = {"ts": [sym.int(f"arrive{i}", 0, 1) for i in range(m)], "via": [sym.bool(f"via_forwarder{i}") for i in range(m)]}
+    P = {"ts": [sym.int(f"arrive{i}", 0, 3) for i in range(m)], "via": [sym.bool(f"via_forwarder{i}") for i in range(m)],
+         "front_concurrency": 1 + sym.choice("front_concurrency_minus_1", 2)}
     ref = _pipeline(P, None)
-    ks = [sym.int("k1", 1, 30)] + ([sym.int("k2", 1, 30)] if tier != "quick" else [])
+    ks = [sym.int("k1", 1, 60)] + ([sym.int("k2", 1, 20)] if tier != "quick" else [])
     got = _pipeline(P, ks)
     if got != ref:
         r.bad("stepped_pipeline_equals_uninterrupted_run", {"uninterrupted": ref, "stepped": got, "steps": ks})
@@ -283,8 +284,10 @@ def pipeline_stepping(sym, tier):
 
 HARNESSES.append(
     H(name="c04_pipeline_stepping", fn=pipeline_stepping, shape="N", budget=lambda tier: 900.0 if tier == "quick" else 3000.0,
-      cubes=lambda tier: [{"via_forwarder0": a, "via_forwarder1": b} for a in range(2) for b in range(2)],
+      cubes=lambda tier: [{"arrive0": a, "via_forwarder0": 0, "via_forwarder1": b, "via_forwarder2": 0, "front_concurrency_minus_1": c}
+                          for a in range(2) for b in range(2) for c in range(2)],
       require=lambda tier: ["two_completions", "paused_midway"],
       functions=["Simulation.run (re-entrant)", "SimulationControl.step/resume", "Queue._handle_enqueue/_handle_poll", "QueueDriver._handle_work_payload"],
-      bounds=lambda tier: {"pipeline": "forwarder -> Server(concurrency 2, 1 ns) -> Server(concurrency 1, 3 ns) -> sink", "requests": 3 if tier == "quick" else 4,
-                           "arrivals": "symbolic ns [0,1]", "interruptions": "step(k1)[, step(k2)], resume with symbolic k in [1,30]"}))
+      bounds=lambda tier: {"pipeline": "forwarder -> Server(concurrency 1 or 2, 1 ns) -> Server(concurrency 1, 8 ns) -> sink", "requests": 3,
+                           "arrivals": "first at 0 or 1 ns, the others symbolic ns [0,3]; only request 1 may go through the forwarder",
+                           "interruptions": "step(k1)[, step(k2)], resume with symbolic k1 in [1,60], k2 in [1,20] (thorough only)"}))
